@@ -98,6 +98,7 @@ def nodefault(ctx, mod):
     P = Program(fdir)
     c = engine.Ctx(ctx.prop, P, "thorough", ctx.repo)
     mod.check_nodefault(c)
+    ctx.activate()
     for i in c.instances:
         i = dict(i)
         i["rule"] = i["rule"] + "@no-default-features"
